@@ -20,6 +20,8 @@ mod base64_vlq;
 mod mapping_writer;
 #[path = "c06/sites.rs"]
 mod sites;
+#[path = "c06/history.rs"]
+mod history;
 
 use nitrogql_ast::base::{HasPos, Pos};
 use nvh::*;
@@ -1063,25 +1065,6 @@ fn gen_project(rng: &mut Rng) -> Project {
         join_dir(&dir, &file)
     };
     let frag_path = |j: usize| -> String { op_path(j, format!("f{j}.graphql")) };
-    let rel_import = |from: &str, to: &str| -> String {
-        // both under ops/
-        let fd: Vec<&str> = from.split('/').collect();
-        let td: Vec<&str> = to.split('/').collect();
-        let fdir = &fd[..fd.len() - 1];
-        let mut common = 0;
-        while common < fdir.len() && common < td.len() - 1 && fdir[common] == td[common] {
-            common += 1;
-        }
-        let mut s = String::new();
-        if fdir.len() == common {
-            s.push_str("./");
-        }
-        for _ in common..fdir.len() {
-            s.push_str("../");
-        }
-        s.push_str(&td[common..].join("/"));
-        s
-    };
     let scalar_sel = |rng: &mut Rng, t: usize, tf: &Vec<Vec<(String, String, Option<usize>)>>| -> Vec<String> {
         let sc: Vec<&String> = tf[t].iter().filter(|f| f.2.is_none() && !f.0.contains('(')).map(|f| &f.0).collect();
         let mut v = vec![sc[rng.below(sc.len())].clone()];
@@ -1159,9 +1142,10 @@ fn gen_project(rng: &mut Rng) -> Project {
             _ => ("query", false, false),
         };
         let nsel = if optype == "subscription" { 1 } else { 1 + rng.below(3) };
-        for _ in 0..nsel {
+        for si in 0..nsel {
             let (qn, _, tgt) = query_fields[rng.below(query_fields.len())].clone();
-            let alias = if rng.chance(1, 4) { format!("a{}: ", rng.below(9)) } else { String::new() };
+            // (aliases are unique per operation: two different fields under one response key do not merge)
+            let alias = if rng.chance(1, 4) { format!("a{si}: ") } else { String::new() };
             match tgt {
                 None if qn.contains('(') => body.push_str(&format!("  {alias}{}(text: \"{}\")\n", qn.split('(').next().unwrap(), rng.pick(&lits))),
                 None => body.push_str(&format!("  {alias}{qn}\n")),
@@ -1237,7 +1221,7 @@ fn import_closure(p: &Project, start: &str) -> Vec<String> {
     while let Some(f) = todo.pop() {
         let Some(text) = p.files.get(&f) else { continue };
         for line in text.lines() {
-            if let Some(rest) = line.strip_prefix("#import ") {
+            if let Some(rest) = line.trim_start_matches('\u{feff}').trim_start().strip_prefix("#import ") {
                 if let Some(q) = rest.split('"').nth(1) {
                     let dir = Path::new(&f).parent().unwrap_or(Path::new(""));
                     let t = normalize(&dir.join(q)).to_string_lossy().to_string();
@@ -1290,31 +1274,44 @@ impl<'a> Ctx<'a> {
     fn project(&mut self, p: &Project, cli: &str, scratch: &str, id: usize) {
         let root = PathBuf::from(scratch).join(format!("c06-proj-{id}"));
         let _ = std::fs::remove_dir_all(&root);
-        for (rel, content) in &p.files {
-            let path = root.join(rel);
-            std::fs::create_dir_all(path.parent().unwrap()).unwrap();
-            std::fs::write(&path, content).unwrap();
-        }
+        write_state(p, &root);
         let case = project_to_json(p);
-        let out = std::process::Command::new(cli).arg("generate").current_dir(&root).output();
+        if self.run_generate(cli, &root, &format!("project {id}")) {
+            self.judge(p, &root, &case, false);
+        }
+        let _ = std::fs::remove_dir_all(&root);
+    }
+
+    /// one `generate` run in `root`; false if the CLI cannot run or fails (counted, outside this property)
+    fn run_generate(&mut self, cli: &str, root: &Path, what: &str) -> bool {
+        let out = std::process::Command::new(cli).arg("generate").current_dir(root).output();
         self.rep.evaluations += 1;
         let out = match out {
             Ok(o) => o,
             Err(e) => {
                 self.rep.notes.push(format!("cannot run the CLI {cli}: {e}"));
                 self.rep.count("e2e:cli-not-runnable");
-                return;
+                return false;
             }
         };
         if !out.status.success() {
             // the generator only builds valid projects; a failing run is outside this property (C18/C08 look at it)
             self.rep.count("e2e:generate-failed(skipped)");
             if self.rep.notes.len() < 3 {
-                self.rep.notes.push(format!("generate failed on project {id}: {}", String::from_utf8_lossy(&out.stderr).chars().take(300).collect::<String>()));
+                self.rep.notes.push(format!("generate failed on {what}: {}", String::from_utf8_lossy(&out.stderr).chars().take(300).collect::<String>()));
             }
-            let _ = std::fs::remove_dir_all(&root);
-            return;
+            return false;
         }
+        true
+    }
+
+    /// every clause of the property on the maps that are on disk under `root`, against the inputs of `p` (the CURRENT
+    /// state). `expected_only`: `root` has seen earlier states too — judge the maps the configuration of `p` asks for
+    /// (schema / resolvers output, one per operation file under the current mode); maps left over from earlier states
+    /// (renamed / removed operation files, another mode's extension) are not outputs of `p` and are counted.
+    fn judge(&mut self, p: &Project, root: &Path, case: &Value, expected_only: bool) {
+        let root = root.to_path_buf();
+        let case = case.clone();
         let mut all = vec![];
         walk(&root, &mut all);
         let inputs: Vec<PathBuf> = p.schema_files.iter().chain(p.op_files.iter()).map(|k| normalize(&root.join(k))).collect();
@@ -1330,7 +1327,21 @@ impl<'a> Ctx<'a> {
         let op_of_map = |rel: &str| -> Option<String> {
             p.op_files.iter().find(|f| { let stem = f.trim_end_matches(".graphql"); suffixes.iter().any(|sx| rel == format!("{stem}{sx}")) }).cloned()
         };
-        let maps: Vec<&PathBuf> = all.iter().filter(|f| f.to_string_lossy().ends_with(".map")).collect();
+        let mut maps: Vec<&PathBuf> = all.iter().filter(|f| f.to_string_lossy().ends_with(".map")).collect();
+        if expected_only {
+            let exp = expected_maps(p);
+            let before = maps.len();
+            maps.retain(|m| m.strip_prefix(&root).map_or(false, |r| exp.contains(&r.to_string_lossy().to_string())));
+            for _ in maps.len()..before {
+                self.rep.count("history:leftover-map-of-an-earlier-state(tolerated)");
+            }
+            for e in &exp {
+                if !maps.iter().any(|m| m.strip_prefix(&root).map_or(false, |r| r.to_string_lossy() == *e)) {
+                    // (judged by the comparison with the fresh run: `history:missing-output:map` if a fresh run writes it)
+                    self.rep.count("history:expected-map-not-on-disk");
+                }
+            }
+        }
         if maps.is_empty() {
             self.rep.fail("O", "e2e:no-map-emitted", "generate wrote no .map file", case.clone());
         }
@@ -1688,8 +1699,24 @@ impl<'a> Ctx<'a> {
         let find_map = |stem: &str| -> Option<String> { suffixes.iter().map(|s| format!("{stem}{s}")).find(|m| metas.iter().any(|x| x.0 == *m)) };
         for (file, text) in p.files.iter().filter(|(k, _)| p.schema_files.contains(k) || p.op_files.contains(k)) {
             let mut in_type = false;
+            let mut depth: i64 = 0;
             for (ln, l) in text.lines().enumerate() {
-                let t = l.trim_start();
+                // (a byte order mark in front of the first token and any indentation are insignificant)
+                let t = l.trim_start_matches('\u{feff}').trim_start();
+                let depth_before = depth;
+                if !t.starts_with('#') {
+                    let mut in_str = false;
+                    let mut prev = ' ';
+                    for c in t.chars() {
+                        match c {
+                            '"' if prev != '\\' => in_str = !in_str,
+                            '{' if !in_str => depth += 1,
+                            '}' if !in_str => depth -= 1,
+                            _ => {}
+                        }
+                        prev = c;
+                    }
+                }
                 let word = |rest: &str| -> String { rest.chars().take_while(|c| c.is_alphanumeric() || *c == '_').collect() };
                 if p.schema_files.contains(file) {
                     let map = format!("{schema_out}.map");
@@ -1717,7 +1744,10 @@ impl<'a> Ctx<'a> {
                         }
                         Some(word(r.trim_start()))
                     };
-                    let def = if l.starts_with('{') {
+                    if depth_before != 0 {
+                        continue; // definitions start at brace depth 0
+                    }
+                    let def = if t.starts_with('{') {
                         Some(("operation", String::new())) // query shorthand
                     } else if let Some(n) = ["query", "mutation", "subscription"].iter().find_map(|k| kw_def(k)) {
                         Some(("operation", n))
@@ -1728,7 +1758,7 @@ impl<'a> Ctx<'a> {
                     if kind == "operation" && n.is_empty() {
                         // an anonymous operation has no name token: the identifiers declaring it (Result, Variables, the
                         // document) carry a segment to where the operation starts (its keyword, or `{` in shorthand form)
-                        let form = if l.starts_with('{') { "shorthand" } else { "keyword" };
+                        let form = if t.starts_with('{') { "shorthand" } else { "keyword" };
                         let col = utf16_len(&l[..l.len() - t.len()]) as i128;
                         if let Some(map) = find_map(file.trim_end_matches(".graphql")) {
                             self.rep.count(&format!("e2e:definition:operation:anonymous:{form}"));
@@ -1755,8 +1785,58 @@ impl<'a> Ctx<'a> {
             }
         }
         self.rep.count(&format!("e2e:project:{imp}"));
-        let _ = std::fs::remove_dir_all(&root);
     }
+}
+
+fn write_state(p: &Project, root: &Path) {
+    for (rel, content) in &p.files {
+        let path = root.join(rel);
+        std::fs::create_dir_all(path.parent().unwrap()).unwrap();
+        std::fs::write(&path, content).unwrap();
+    }
+}
+
+fn cfg_value(p: &Project, key: &str) -> Option<String> {
+    p.files.get("graphql.config.yaml").and_then(|c| c.lines().find_map(|l| l.trim().strip_prefix(&format!("{key}: ")).map(|x| x.trim().trim_matches('"').to_string())))
+}
+
+/// the maps the configuration of `p` asks for, relative to the project root
+fn expected_maps(p: &Project) -> Vec<String> {
+    let mut v = vec![];
+    for key in ["schemaOutput", "resolversOutput"] {
+        if let Some(x) = cfg_value(p, key) {
+            v.push(format!("{}.map", normalize(Path::new(&x)).to_string_lossy()));
+        }
+    }
+    let ext = match cfg_value(p, "mode").as_deref() {
+        Some("with-loader-ts-4.0") => ".graphql.d.ts.map",
+        Some("standalone-ts-4.0") => ".graphql.ts.map",
+        _ => ".d.graphql.ts.map",
+    };
+    for f in &p.op_files {
+        v.push(format!("{}{ext}", f.trim_end_matches(".graphql")));
+    }
+    v
+}
+
+/// relative import specifier from the file `from` to the file `to` (both relative to the project root)
+fn rel_import(from: &str, to: &str) -> String {
+    let fd: Vec<&str> = from.split('/').collect();
+    let td: Vec<&str> = to.split('/').collect();
+    let fdir = &fd[..fd.len() - 1];
+    let mut common = 0;
+    while common < fdir.len() && common < td.len() - 1 && fdir[common] == td[common] {
+        common += 1;
+    }
+    let mut s = String::new();
+    if fdir.len() == common {
+        s.push_str("./");
+    }
+    for _ in common..fdir.len() {
+        s.push_str("../");
+    }
+    s.push_str(&td[common..].join("/"));
+    s
 }
 
 // --------------------------------------------------------------------------------------------- main
@@ -1817,6 +1897,7 @@ fn main() {
                 ctx.ops(&[(ops, c["o_domain"].as_bool().unwrap_or(true))]);
             }
             "project" => ctx.project(&project_from_json(c), &cli, &scratch, 0),
+            "history" => ctx.history(&history::History::from_json(c), &cli, &scratch, 0),
             "sites" => run_sites(&mut ctx, &[sites::SitesCase::from_json(c)], 1),
             k => panic!("unknown replay case kind {k}"),
         }
@@ -1975,6 +2056,15 @@ fn main() {
                 ctx.rep.sample(project_to_json(&p));
             }
             ctx.project(&p, &cli, &scratch, i + 1);
+        }
+        // ---- generate histories (own PRNG stream: the projects above keep their cases)
+        let mut hrng = Rng::new(args.seed ^ 0x6d38_6869_7374);
+        for (i, h) in history::corpus().iter().enumerate() {
+            ctx.history(h, &cli, &scratch, i);
+        }
+        for i in 0..args.budget(14, 150) {
+            let h = history::gen_history(&mut hrng);
+            ctx.history(&h, &cli, &scratch, 100 + i);
         }
     } else {
         ctx.rep.notes.push(format!("CLI binary {cli:?} not found: end-to-end stream skipped"));
